@@ -4,6 +4,21 @@ COQ = "machine-checked proof in Coq 8.16.1 about a hand-written Gallina model; m
 NOT_CLAIMED = {}
 
 CLAIMS = {
+    "C15": dict(
+        technique="Coq proof (capi_len_ok in checked and wrapping arithmetic, capi_steps; the pre-fix defect as capi_len_unfixed_refuted) + three-way correspondence: C driver on libkodama.a (dev and release) vs Rust linkage vs model",
+        text="Theorems (Props/C15.v, closed): after the fix the length expression equals n(n-1)/2 in both build profiles for every n<2^32 including 0 and 1 (the shipped expression is refuted for n=0 in the dev profile: the defect repaired by the fix: commit); for both entry points the handle holds exactly the steps of linkage (dissimilarity widened exactly), the n passed in, and aborts iff linkage panics. Tie: client histories (n 0..22, all 7 enumerators by header name, tied/tie-free, double and float) replayed through the real staticlib in dev AND release profiles, compared bit for bit with the Rust linkage and with the model.",
+        note="The ABI crossing (calling convention, layout) is tested, not proved. Defect found and fixed: observations=0 aborted in dev-profile builds (known_findings.txt, fixed entry). Print Assumptions: closed.",
+    ),
+    "C16": dict(
+        technique="Coq proof that the handle store refines a map over all client histories (handle_stable, free_all_empty) + AddressSanitizer/LeakSanitizer replay of random histories on 1..16 threads",
+        text="Theorems (Props/C16.v, closed): over all histories of create/read/scribble-input/free, a handle keeps exactly the steps computed at its creation until it is freed, whatever happens to input buffers or other handles, and freeing all handles leaves nothing. PARTIAL: memory safety, leaks and races are runtime behaviour no Gallina model exhibits; they are covered by replaying the same histories against libkodama.a (dev and release) under ASan+LSan, single- and multi-threaded, with inputs overwritten and freed early, failing on any sanitizer report or differing read.",
+        note="Proof covers the logic only; the runtime half of the property is exploration under sanitizers. Print Assumptions: closed.",
+    ),
+    "C17": dict(
+        technique="translator (regenerates the ABI facts from the 4 source files each run) + Coq decision over the finite domain (enum_agree, struct_agree, proto_agree) + C driver compiled against both headers",
+        text="Theorems (Props/C17.v, closed; finite domain stated: 7 methods, 4 fields, 6 functions, 2 headers, Rust, Go): the enumerator order/names, into_method, Go iota block and enum() switch denote the same method at every layer; kodama_step has the same field order, names and C-equivalent types everywhere and the Go conversion reads like-named fields; the six prototypes agree (the only difference, *const vs non-const return of kodama_dendrogram_steps, is ABI-neutral and whitelisted by name); Go's expectedLen is n(n-1)/2. The facts are regenerated from /repo on every run and Coq re-checks gen_abi = model_abi. Semantic backing: the C driver, compiled against each header, selects methods by NAME and must reproduce the Rust results; sizeof/offsetof are probed.",
+        note="Go is covered at the text level only (no Go toolchain in the sandbox). Parsers fail closed. Print Assumptions: closed.",
+    ),
     "C07": dict(
         technique="Coq proof (cidx_is_position: index expression = position in the row-major pair enumeration, bijection, no 64-bit wrap) + bit-exact correspondence incl. the mutated matrix slot by slot + slot-probe search",
         text="Theorems (Props/C07.v, closed): for every n and r<c<n the expression ((2n-r-3)r/2)+c-1 is the position of (r,c) in (0,1),(0,2),...,(n-2,n-1); it is injective and onto [0,n(n-1)/2); its 64-bit wrapping evaluation equals the mathematical value for n<2^32, so checked and release builds address the same slot without panic. The observable consequence (first step = unique smallest slot's pair, second single-linkage step = second smallest) is searched on the real entry points for n up to thousands (slot_probe); the model's use of the index is tied to the code by the bit-exact algo/hist correspondence, which compares the caller's matrix after the call slot by slot.",
